@@ -13,6 +13,7 @@ from hgv.worker import HarnessError
 from props.c05 import tree_value
 
 ID = "C10"
+ASAN_THOROUGH = True   # thorough tier runs against the AddressSanitizer build
 RULE = ("A mapped function F generated from the vocabulary (stateless sum, stateful accumulator / counter, self-scheduling timer, "
         "optionally consuming the key and a broadcast argument, 1-3 chained nodes) is applied with map_ to a scripted TSD[int,TS[int]] "
         "whose key history has adds, updates, removes, re-adds in later cycles, several keys per cycle and growth bursts across 8/16/32 "
